@@ -13,6 +13,8 @@ CONSTANTS
   OblIdempotent = TRUE
   OblFence = FALSE
   OblP1Atomic = TRUE
+  OblLockQuery = TRUE
+  AllowReads = FALSE
   OblHonest = TRUE
   AllowXA = FALSE
   OblXATruthful = TRUE
